@@ -77,7 +77,7 @@ CHECKS = {
         technique="Lean 4 proof (invariant over the event log, induction) + differential execution of the real driver",
         ref="§4 C01"),
     "C02": dict(
-        text="Theorems C02_abort_restores (abort at any test index / strategy failure at any point), C02_hooks (init once before, cleanup once after), C02_kill_durable (inside every test the highest-numbered *-interesting copy, or original, is the last accepted version) over the driver model for every script. Correspondence as C01 plus aborts at every test index with 6 exception classes and injected rmslice failures; thorough tier SIGKILLs real `python -m lithium` children inside test k.",
+        text="C02_hooks_any_history (a Lithium object in ANY prior state: the run appends init once, its tests, cleanup once to the trace, however it ends). Theorems C02_abort_restores (abort at any test index / strategy failure at any point), C02_hooks (init once before, cleanup once after), C02_kill_durable (inside every test the highest-numbered *-interesting copy, or original, is the last accepted version) over the driver model for every script. Correspondence as C01 plus aborts at every test index with 6 exception classes and injected rmslice failures; thorough tier SIGKILLs real `python -m lithium` children inside test k.",
         note=NOTE + "Durability of completed writes across SIGKILL is OS behaviour (assumed); exceptions raised by the hooks themselves are out of scope.",
         technique="Lean 4 proof (invariants Core/Log/Kill over the event log) + differential execution with abort injection",
         ref="§4 C02"),
